@@ -7,7 +7,7 @@ use neurons::tensor::{Data, Shape, Tensor};
 
 pub fn meta(_ctx: &Ctx) -> Meta {
     Meta {
-        rule: "ops {add,sub,mul,hadamard*scalar,div-by-scalar,mean over k=1..4 (also on operands near +-f32::MAX whose sum leaves the range while their mean does not)} x ranks 1-D..4-D (nested lists for add/div) x all shapes with extents in {1,2,3} x operand valuations covering ALL 169 ordered pairs over V={0,-0,1,-1,0.1,3,-7.5,2^-149,1e-30,1e30,MAX,5,1e-5} (cycled through the elements with every offset), plus operands that are entirely within 1e-5 of 1 or of 0 without being all ones / zeros, x scalars {1,0.5,2,-4,3,7,0.1,1e-39,3e38}; every ordered pair of different shapes of the lattice (and the empty vector against every shape, both ways round) must be refused by add/sub/mul/hadamard/mean; product/dot/transpose on integer data (r,c <= 4, and 1x33, 33x1, 4x40, 64x10, 10x65, 100x100, 3x257); the element-wise operations also on a vector of 1000, 40x40, 3x65, 2x33x5, 3x3x17x2; the free functions hadamard3d and pad3d on all CxHxW with extents <= 3; clamp over V x intervals incl. degenerate. Oracle: the single IEEE f32 operation per element, bit-exact. Non-trivial = case with >=2 elements or a shape-mismatch pair".into(),
+        rule: "ops {add,sub,mul,hadamard*scalar,div-by-scalar,mean over k=1..4 (also on operands near +-f32::MAX whose sum leaves the range while their mean does not)} x ranks 1-D..4-D (nested lists for add/div) x all shapes with extents in {1,2,3} x operand valuations covering ALL 169 ordered pairs over V={0,-0,1,-1,0.1,3,-7.5,2^-149,1e-30,1e30,MAX,5,1e-5} (cycled through the elements with every offset), plus operands that are entirely within 1e-5 of 1 or of 0 without being all ones / zeros, x scalars {1,0.5,2,-4,3,7,0.1,1e-39,3e38}; every ordered pair of different shapes of the lattice (and the empty vector against every shape, both ways round) must be refused by add/sub/mul/hadamard/mean, and by add/sub/mul on nested lists holding the two shapes (as the only, the first or the second member); product/dot/transpose on integer data (r,c <= 4, and 1x33, 33x1, 4x40, 64x10, 10x65, 100x100, 3x257); the element-wise operations also on a vector of 1000, 40x40, 3x65, 2x33x5, 3x3x17x2; the free functions hadamard3d and pad3d on all CxHxW with extents <= 3; clamp over V x intervals incl. degenerate. Oracle: the single IEEE f32 operation per element, bit-exact. Non-trivial = case with >=2 elements or a shape-mismatch pair".into(),
         bound: "extents <= 3 per axis, k <= 4, matrices <= 4x4; complete within the bound (thorough: extents <= 5, k <= 8, matrices <= 8x8)".into(),
         exhaustive: true,
         assumptions: vec!["hadamard: any association of a*b*scalar is accepted".into(), "mean: bit-exact on integer operands (exact sum, one rounding of the quotient); on general operands within the any-order summation bound eps*(k+2)*sum|x|/(k+1) of the f64 value".into()],
@@ -314,6 +314,27 @@ pub fn check(case: &Kv, rep: &mut Report) {
                 });
                 if r.is_ok() {
                     rep.violate("C15 mean accepts mismatched shapes", format!("{} with a later operand {} (position {}) was not refused", sname(&sa), sname(&sb), bad_at + 1), case);
+                }
+            }
+            // the same mismatch inside nested lists (any rank; in the only, the first or the second member of the list)
+            for o in ["add", "sub", "mul"] {
+                for place in 0..3usize {
+                    let (l1, l2) = match place {
+                        0 => (vec![mk(&sa, &a)], vec![mk(&sb, &b)]),
+                        1 => (vec![mk(&sa, &a), mk(&sa, &a)], vec![mk(&sb, &b), mk(&sa, &a)]),
+                        _ => (vec![mk(&sa, &a), mk(&sa, &a)], vec![mk(&sa, &a), mk(&sb, &b)]),
+                    };
+                    let mut n1 = Tensor::nested(l1);
+                    let n2 = Tensor::nested(l2);
+                    rep.transitions += 1;
+                    let r = guard(|| match o {
+                        "add" => n1.add_inplace(&n2),
+                        "sub" => n1.sub_inplace(&n2),
+                        _ => n1.mul_inplace(&n2),
+                    });
+                    if r.is_ok() {
+                        rep.violate(format!("C15 {} accepts mismatched shapes", o), format!("nested lists whose members are {} and {} (place {}) were not refused", sname(&sa), sname(&sb), place), case);
+                    }
                 }
             }
             // nested lists of different length
